@@ -37,7 +37,7 @@ def execute(cases, exe, model, tag=None):
     for c, (lines, crash) in zip(cases, impl):
         follow = [l for l in lines if l.startswith("s ") or l.startswith("end ")]
         mcases.append("\n".join([l for l in c if not l.startswith("run") and l != "drain"] + follow +
-                                ([l for l in c if l == "drain"])) + "\n")
+                                ([l for l in c if l == "drain"] if "end 0" in lines else [])) + "\n")
     mod = C.run_cases(model, mcases, timeout=900)
     return impl, mod
 
@@ -398,3 +398,18 @@ def _san(err):
         if "runtime error" in l or "ERROR: AddressSanitizer" in l or "SUMMARY" in l:
             return l.strip()[:200]
     return err.strip().split("\n")[-1][:200] if err.strip() else ""
+
+
+def shrink(case, kind, exe, model):
+    """drop calls (not the open / run / drain lines) while the same kind of failure remains"""
+    head = [case[0]]
+    tail = [l for l in case if l.startswith("run") or l == "drain"]
+    body = [l for l in case[1:] if l not in tail]
+
+    def fails(sub):
+        full = head + sub + tail
+        im, mo = execute([full], exe, model, tag="s%d" % os.getpid())
+        j = judge(full, im[0], mo[0])
+        return j is not None and j[0] == kind
+    small = C.shrink_list(body, fails, budget=30) if len(body) > 1 else body
+    return head + small + tail
